@@ -572,6 +572,9 @@ def _is_descr(x) -> bool:
 
 
 def _run(scn, log: EventLog, stats: Stats):
+    from sim.core import fresh_models
+
+    fresh_models()
     H = Harness(scn, log, stats)
     space = H.space
     rep = SPACE_NAME[scn["replica"]]
